@@ -6,17 +6,16 @@ open HappyModel.Proto
 
 def optNat' (s : String) : Option Nat := if s == "-" || s == "none" then none else nat? s
 
-/-- header: variant conc lo hi limit kind cap  (conc = fixed | dynamic | weighted; lo/hi only for dynamic) -/
+/-- header: wake admission conc lo hi limit kind cap  (wake, admission = 0 | 1; conc = fixed | dynamic | weighted; lo/hi only for dynamic) -/
 def parseHdr : List String → Option (WCfg × Nat)
-  | [v, cm, lo, hi, lim, kind, cap] =>
-    let variant := if v == "current" then Variant.current else Variant.repaired
+  | [wk, ad, cm, lo, hi, lim, kind, cap] =>
     let conc : Option Conc := match cm with
       | "fixed" => some .fixed | "weighted" => some .weighted
       | "dynamic" => some (.dynamic (natD lo) (optNat' hi)) | _ => none
     let k : Option QKind := match kind with
       | "fifo" => some .fifo | "lifo" => some .lifo | "prio" => some .prio | _ => none
     match conc, k with
-    | some cc, some kd => some ({ variant, conc := cc, kind := kd, cap := optNat' cap }, natD lim)
+    | some cc, some kd => some ({ wake := wk == "1", admission := ad == "1", conc := cc, kind := kd, cap := optNat' cap }, natD lim)
     | _, _ => none
   | _ => none
 
